@@ -8,6 +8,7 @@ import CharsetProof.Props.C10
 import CharsetProof.Props.C10c
 import CharsetProof.Props.C19
 import CharsetProof.Props.C19f
+import CharsetProof.Props.Full2
 open Charset
 #print axioms C19_single_chunk_full
 #print axioms mergeModel_single
@@ -15,6 +16,8 @@ open Charset
 #print axioms Fl.div_one_nn
 #print axioms Fl.zero_add_nn
 #print axioms C19_result_sorted_current
+#print axioms C19_result_sorted_full
+#print axioms detection_full_languages
 #print axioms mergeModel_sorted
 #print axioms sortUnstableSmall_pairwise
 #print axioms sortUnstableSmall_perm
